@@ -492,3 +492,73 @@ pub fn s4(sink: &mut Sink) -> (usize, usize) {
     OVERSIZE_RECORDS.with(|o| o.set(false));
     (histories, steps)
 }
+
+/// S5: one operation repeated many times inside a defragmentation ("any sequence of calls", uniform and long):
+/// after a first fragment, n x {empty fragment | 1-byte fragment | record of another type | refused nocopy call |
+/// empty application-data record}, then the fragment that completes the message; n up to 70000 for the
+/// operations that do not grow the buffer. Returns (histories, steps).
+pub fn s5(sink: &mut Sink, thorough: bool) -> (usize, usize) {
+    let mut histories = 0;
+    let mut steps = 0;
+    // a Finished-like message of 4100 bytes: room for thousands of 1-byte fragments
+    let mut msg = vec![0x14, 0x00, 0x10, 0x00];
+    msg.extend((0..4096u32).map(|i| (i % 251) as u8));
+    let reps_const: &[usize] = if thorough { &[1, 2, 31, 32, 33, 34, 63, 64, 65, 127, 128, 129, 255, 256, 257, 1000, 1024, 1025, 4096, 65535, 65536, 70000] } else { &[32, 33, 34, 64, 65, 128, 129, 256, 257, 1025, 65537] };
+    let reps_grow: &[usize] = if thorough { &[1, 2, 31, 32, 33, 34, 63, 64, 65, 127, 128, 129, 255, 256, 257, 1000, 1024, 1025, 4000] } else { &[32, 33, 64, 65, 256, 257, 1025] };
+    for kind in 0..5usize {
+        let reps = if kind == 1 { reps_grow } else { reps_const };
+        for &n in reps {
+            let first = 4usize + 7;
+            let mut alpha = vec![rec(0x16, &msg[..first])];
+            let (op, grows): (Op, bool) = match kind {
+                0 => {
+                    alpha.push(rec(0x16, &[]));
+                    (Op::Parse(1), false)
+                }
+                1 => {
+                    alpha.push(rec(0x16, &[0x00]));
+                    (Op::Parse(1), true)
+                }
+                2 => {
+                    alpha.push(rec(0x15, &[1, 0]));
+                    (Op::Parse(1), false)
+                }
+                3 => {
+                    alpha.push(rec(0x16, &[0x0e, 0, 0, 0]));
+                    (Op::NoCopy(1), false)
+                }
+                _ => {
+                    alpha.push(rec(0x17, &[]));
+                    (Op::Parse(1), false)
+                }
+            };
+            // the 1-byte fragments must be the message's own bytes for the final result to be the message
+            let mut ops = vec![Op::Parse(0)];
+            let mut at = first;
+            if grows {
+                for _ in 0..n {
+                    alpha.push(rec(0x16, &msg[at..at + 1]));
+                    ops.push(Op::Parse(alpha.len() - 1));
+                    at += 1;
+                }
+            } else {
+                ops.extend(std::iter::repeat(op).take(n));
+            }
+            alpha.push(rec(0x16, &msg[at..]));
+            ops.push(Op::Parse(alpha.len() - 1));
+            alpha.push(rec(0x16, &[0x0e, 0, 0, 0]));
+            ops.push(Op::Parse(alpha.len() - 1));
+            histories += 1;
+            steps += ops.len();
+            sink.evals += ops.len() as u64;
+            if let Some((k, m)) = run_history(&alpha, &ops) {
+                sink.violation(
+                    format!("S5 kind {} n {} op {}", kind, n, k),
+                    format!("[S5 repeated operation, kind {} x {}] operation {} ({:.60}): {}", kind, n, k, op_str(&ops[k], &alpha), m),
+                    json!({"kind":"repeat","op_kind":kind,"n":n}),
+                );
+            }
+        }
+    }
+    (histories, steps)
+}
